@@ -37,9 +37,10 @@ def equivalent_x0(rng, sps, x0):
                     y[i] -= f * x0[i]
                     for j, c in atoms.items():
                         y[j] += f * x0[i] * c
-                    c0 = rng.choice([1.0, 0.37, 12.5])
+                    c0 = rng.choice([1.0, 0.37, 12.5, 1e-8, 1e7])
                     return [v * c0 for v in y], "molecule redistributed to its atoms, then scaled"
-    c0 = rng.choice([0.01, 0.5, 3.0, 250.0])
+    # any positive constant: also extreme ones (x0 in other units, unnormalised feeds)
+    c0 = rng.choice([0.01, 0.5, 3.0, 250.0, 1e-9, 1e-7, 1e-5, 1e6, 1e9])
     return [v * c0 for v in x0], f"scaled by {c0}"
 
 
@@ -66,13 +67,25 @@ def check(run):
         run.note(f"proof obligation failed: {res['error']}")
     found, hist = None, {}
     kinds = ["oxy", "oxy", "oxy", "sico", "synth1", "synth1", "synth2", "synth2", "synth2"]
-    for sps, x0, T, P, kind in sc.cases(rng, n, Trange=(1000.0, 25000.0), Prange=(1e4, 1e6), kinds=kinds):
+    # hard region: cool Si-C-O in shuffled listing orders, where the minor species converge late, with extreme scale factors of x0
+    pinned = []
+    for _ in range(40 if thorough else 8):
+        names = list(gen.SICO)
+        rng.shuffle(names)
+        f = rng.choice([0.2, 0.5, 0.8])
+        xp = [0.0] * len(names)
+        xp[names.index("CO")], xp[names.index("SiO")] = f, 1 - f
+        pinned.append(([gen.shipped(nm) for nm in names], xp, rng.uniform(1500.0, 4000.0), 10 ** rng.uniform(4, 6), "pinned", rng.choice([1e-7, 1e-8, 1e-9, 1e8])))
+    for case in pinned + [c + (None,) for c in sc.cases(rng, n, Trange=(1000.0, 25000.0), Prange=(1e4, 1e6), kinds=kinds)]:
+        sps, x0, T, P, kind, cpin = case
         if kind == "oxy":            # documented order converges reliably
             sps, x0 = [gen.shipped(nm) for nm in gen.OXY], rng.choice([[1, 0, 0, 0, 0, 0], [0.2, 0, 0.8, 0, 0, 0], [0, 0, 1, 0, 0, 0]])
         if kind == "sico":
             sps, x0 = [gen.shipped(nm) for nm in gen.SICO], gen.sico_x0(rng.choice([0.2, 0.5, 0.8]))
         y0, how = equivalent_x0(rng, sps, list(x0))
-        scal = equiv.SCALARS if kind in ("oxy", "sico") else ["calculate_density", "calculate_enthalpy", "calculate_heat_capacity", "calculate_total_emission_coefficient"]
+        if cpin is not None:
+            y0, how = [v * cpin for v in x0], f"scaled by {cpin}"
+        scal = ["calculate_density", "calculate_enthalpy", "calculate_electrical_conductivity"] if kind == "pinned" else equiv.SCALARS if kind in ("oxy", "sico") else ["calculate_density", "calculate_enthalpy", "calculate_heat_capacity", "calculate_total_emission_coefficient"]
         try:
             a = equiv.evaluate(sps, list(x0), T, P, scalars=scal)
             b = equiv.evaluate(sps, y0, T, P, scalars=scal)
